@@ -58,6 +58,15 @@ CONFIG = {
         ),
         det=dict(quick=32, thorough=256),
     ),
+    "C24": dict(
+        engine="hcache",
+        level="exploration",
+        tiers=dict(
+            quick=dict(runs=1600, opts=dict()),
+            thorough=dict(runs=160000, opts=dict()),
+        ),
+        det=dict(quick=32, thorough=256),
+    ),
     "C37": dict(
         engine="store",
         level="exploration",
